@@ -204,6 +204,13 @@ impl Visitor for CrossW {
 pub fn handle(args: &[&str]) -> Option<String> {
     match args {
         ["list"] => Some(format!("ok {}", ZOO_TYPES.join(","))),
+        // `variants <name> <expected>`: the variant identifiers of a generated enum in the order of the generated text
+        ["variants", name, _expected] => Some(
+            match crate::zoo::ZOO_ENUM_VARIANTS.iter().find(|(n, _)| n == name) {
+                Some((_, v)) => format!("ok {}", v),
+                None => "err no-enum".to_string(),
+            },
+        ),
         // `charset <utf8|ia5|num|print|vis> <lo> <hi>`: validity of every code point lo..hi (exclusive)
         // according to `Charset::is_valid`, as a 0/1 string (surrogates count as invalid scalar values: `x`)
         ["charset", cs, lo, hi] => {
